@@ -165,3 +165,157 @@ func (pi *pkgInfo) isHookStmt(st ast.Stmt) bool {
 	txt := strings.Join(strings.Fields(pi.src(st)), " ")
 	return strings.HasPrefix(txt, "verifPoint(") || strings.HasPrefix(txt, "verifObserve(")
 }
+
+// ---------------------------------------------------------------------------------------------
+// AST matching (KExpr fallback): like the token matcher, but insensitive to redundant parentheses,
+// accepting a named constant where the pattern has its value, and looking through a call to a
+// *pure helper* of the package (a function whose body is a single `return e`): the call matches
+// if e, with the parameters replaced by the arguments, matches the pattern.  Extracting a
+// repeated test into such a helper is a harmless rewrite.
+
+type amatch struct {
+	pi  *pkgInfo
+	fwd map[string]types.Object
+	bwd map[types.Object]string
+	env map[types.Object]ast.Expr // helper parameter -> argument expression (caller's context)
+}
+
+func unparen(e ast.Expr) ast.Expr {
+	for {
+		p, ok := e.(*ast.ParenExpr)
+		if !ok {
+			return e
+		}
+		e = p.X
+	}
+}
+
+// pureHelper: the callee of `call` is declared in this package with a body `return e`.
+func (pi *pkgInfo) pureHelper(call *ast.CallExpr) (*ast.FuncDecl, ast.Expr) {
+	w := &flowWalker{pi: pi}
+	_, fd := w.declOf(call)
+	if fd == nil || fd.Body == nil || len(fd.Body.List) != 1 {
+		return nil, nil
+	}
+	ret, ok := fd.Body.List[0].(*ast.ReturnStmt)
+	if !ok || len(ret.Results) != 1 {
+		return nil, nil
+	}
+	return fd, ret.Results[0]
+}
+
+// helperEnv maps the helper's parameters (and receiver) to the call's arguments.
+func (pi *pkgInfo) helperEnv(fd *ast.FuncDecl, call *ast.CallExpr) (map[types.Object]ast.Expr, bool) {
+	env := map[types.Object]ast.Expr{}
+	var params []*ast.Ident
+	for _, f := range fd.Type.Params.List {
+		params = append(params, f.Names...)
+	}
+	if len(params) != len(call.Args) {
+		return nil, false
+	}
+	for i, p := range params {
+		if o := pi.info.Defs[p]; o != nil {
+			env[o] = call.Args[i]
+		}
+	}
+	if fd.Recv != nil && len(fd.Recv.List) == 1 && len(fd.Recv.List[0].Names) == 1 {
+		if sel, ok := call.Fun.(*ast.SelectorExpr); ok {
+			if o := pi.info.Defs[fd.Recv.List[0].Names[0]]; o != nil {
+				env[o] = sel.X
+			}
+		}
+	}
+	return env, true
+}
+
+func (m *amatch) eq(pat, cand ast.Expr) bool {
+	pat, cand = unparen(pat), unparen(cand)
+	// a helper parameter stands for its argument
+	if id, ok := cand.(*ast.Ident); ok && m.env != nil {
+		obj := m.pi.info.Uses[id]
+		if a, ok := m.env[obj]; ok && obj != nil {
+			saved := m.env
+			m.env = nil // the argument lives in the caller
+			r := m.eq(pat, a)
+			m.env = saved
+			return r
+		}
+	}
+	// literal in the pattern, constant expression in the code
+	if bl, ok := pat.(*ast.BasicLit); ok {
+		if tv, ok := m.pi.info.Types[cand]; ok && tv.Value != nil {
+			return tv.Value.ExactString() == strings.TrimSpace(bl.Value) || tv.Value.String() == bl.Value
+		}
+		cb, ok := cand.(*ast.BasicLit)
+		return ok && cb.Value == bl.Value
+	}
+	// look through a pure helper
+	if call, ok := cand.(*ast.CallExpr); ok {
+		if _, isCall := pat.(*ast.CallExpr); !isCall {
+			if fd, body := m.pi.pureHelper(call); fd != nil {
+				if env, ok := m.pi.helperEnv(fd, call); ok {
+					saved := m.env
+					m.env = env
+					r := m.eq(pat, body)
+					m.env = saved
+					return r
+				}
+			}
+			return false
+		}
+	}
+	switch p := pat.(type) {
+	case *ast.Ident:
+		c, ok := cand.(*ast.Ident)
+		if !ok {
+			return false
+		}
+		if obj := m.pi.localVar(c); obj != nil {
+			if o, ok := m.fwd[p.Name]; ok {
+				return o == obj
+			}
+			if _, ok := m.bwd[obj]; ok {
+				return false
+			}
+			m.fwd[p.Name] = obj
+			m.bwd[obj] = p.Name
+			return true
+		}
+		return c.Name == p.Name
+	case *ast.BinaryExpr:
+		c, ok := cand.(*ast.BinaryExpr)
+		return ok && c.Op == p.Op && m.eq(p.X, c.X) && m.eq(p.Y, c.Y)
+	case *ast.UnaryExpr:
+		c, ok := cand.(*ast.UnaryExpr)
+		return ok && c.Op == p.Op && m.eq(p.X, c.X)
+	case *ast.SelectorExpr:
+		c, ok := cand.(*ast.SelectorExpr)
+		return ok && c.Sel.Name == p.Sel.Name && m.eq(p.X, c.X)
+	case *ast.StarExpr:
+		c, ok := cand.(*ast.StarExpr)
+		return ok && m.eq(p.X, c.X)
+	case *ast.IndexExpr:
+		c, ok := cand.(*ast.IndexExpr)
+		return ok && m.eq(p.X, c.X) && m.eq(p.Index, c.Index)
+	case *ast.CallExpr:
+		c, ok := cand.(*ast.CallExpr)
+		if !ok || len(c.Args) != len(p.Args) || !m.eq(p.Fun, c.Fun) {
+			return false
+		}
+		for i := range p.Args {
+			if !m.eq(p.Args[i], c.Args[i]) {
+				return false
+			}
+		}
+		return true
+	}
+	return false
+}
+
+// astMatch: does cand match the pattern (Go expression text)?  Second result: the pure helper
+// looked through at the top level, if any (the translator then translates its body).
+func (pi *pkgInfo) astMatch(cand ast.Expr, pattern ast.Expr) bool {
+	m := &amatch{pi: pi, fwd: map[string]types.Object{}, bwd: map[types.Object]string{}}
+	return m.eq(pattern, cand)
+}
